@@ -17,7 +17,12 @@ pub mod itx {
     pub open spec fn fm_rel<T, U, F: FnMut(T) -> Option<U>>(f: F, s: Seq<T>, o: Seq<U>, idx: Seq<int>) -> bool {
         idx.len() == o.len() && picks(idx, s.len() as int)
         && (forall|k: int| #![trigger o[k]] #![trigger idx[k]] 0 <= k < o.len() ==> f.ensures((s[idx[k]],), Some(o[k])))
-        && (forall|j: int| 0 <= j < s.len() ==> idx.contains(j) || f.ensures((#[trigger] s[j],), None))
+        && (forall|j: int| 0 <= j < s.len() ==> (exists|k: int| 0 <= k < idx.len() && #[trigger] idx[k] == j) || f.ensures((#[trigger] s[j],), None))
+    }
+    pub open spec fn flt_rel<T, F: FnMut(&T) -> bool>(f: F, s: Seq<T>, o: Seq<T>, idx: Seq<int>) -> bool {
+        idx.len() == o.len() && picks(idx, s.len() as int)
+        && (forall|k: int| #![trigger o[k]] #![trigger idx[k]] 0 <= k < o.len() ==> o[k] == s[idx[k]] && f.ensures((&s[idx[k]],), true))
+        && (forall|j: int| 0 <= j < s.len() ==> (exists|k: int| 0 <= k < idx.len() && #[trigger] idx[k] == j) || f.ensures((&#[trigger] s[j],), false))
     }
     pub open spec fn spec_enumerate<T>(s: Seq<T>) -> Seq<(usize, T)> { Seq::new(s.len(), |i: int| (i as usize, s[i])) }
     pub open spec fn spec_refs<'a, T>(s: Seq<T>) -> Seq<&'a T> { Seq::new(s.len(), |i: int| &s[i]) }
@@ -38,6 +43,12 @@ pub mod itx {
             ensures r@.len() == self@.len(),
                 forall|i: int| #![trigger r@[i]] #![trigger self@[i]] 0 <= i < self@.len() ==> f.ensures((self@[i],), r@[i])
         { unimplemented!() }
+        /// `filter`: the elements the predicate accepts, in order (the predicate sees a reference)
+        #[verifier::external_body]
+        pub fn filter<F: FnMut(&T) -> bool>(self, f: F) -> (r: SeqIt<T>)
+            requires forall|i: int| 0 <= i < self@.len() ==> f.requires((&#[trigger] self@[i],))
+            ensures exists|idx: Seq<int>| #[trigger] flt_rel(f, self@, r@, idx)
+        { unimplemented!() }
         #[verifier::external_body]
         pub fn collect(self) -> (v: Vec<T>) ensures v@ == self@ { unimplemented!() }
     }
@@ -49,6 +60,11 @@ pub mod itx {
     /// `Vec<T>::into_iter()`
     #[verifier::external_body]
     pub fn vec_iter<T>(s: Vec<T>) -> (r: SeqIt<T>) ensures r@ == s@ { unimplemented!() }
+    /// `HashSet::from([a, b, ..])`
+    #[verifier::external_body]
+    pub fn hashset_from<K: std::hash::Hash + Eq, const N: usize>(a: [K; N]) -> (m: std::collections::HashSet<K>)
+        ensures vstd::std_specs::hash::obeys_key_model::<K>() ==> forall|k: K| #[trigger] m@.contains(k) <==> a@.contains(k)
+    { unimplemented!() }
     /// `HashMap::from_iter`: exactly the keys of the pairs; a later pair overwrites an earlier one
     #[verifier::external_body]
     pub fn hashmap_from_iter<K: std::hash::Hash + Eq, V>(it: SeqIt<(K, V)>) -> (m: HashMap<K, V>)
